@@ -1,340 +1,432 @@
-// Copyright 2013 The Go Authors. All rights reserved.
-// Use of this source code is governed by a BSD-style
-// license that can be found in the LICENSE file.
-
 package interp
 
-// Emulated functions that we cannot interpret because they are
-// external or because they use "unsafe" or "reflect" operations.
+// Engine-implemented functions ("externals"/intrinsics): the verification API (zzverif),
+// library functions that are body-less or use unsafe, and environment stubs.
 
 import (
-	"bytes"
+	"fmt"
+	"go/token"
+	"go/types"
 	"math"
-	"os"
-	"runtime"
-	"sort"
 	"strconv"
 	"strings"
-	"time"
+	"unicode"
 	"unicode/utf8"
+
+	"golang.org/x/tools/go/ssa"
+
+	"symgo/smt"
 )
 
 type externalFn func(fr *frame, args []value) value
 
-// TODO(adonovan): fix: reflect.Value abstracts an lvalue or an
-// rvalue; Set() causes mutations that can be observed via aliases.
-// We have not captured that correctly here.
-
 // Key strings are from Function.String().
 var externals = make(map[string]externalFn)
 
+// prefixExternals are matched by prefix (generic instantiations).
+var prefixExternals []struct {
+	prefix, suffix string
+	fn             externalFn
+}
+
+func findExternal(name string, fn *ssa.Function) externalFn {
+	if e := externals[name]; e != nil {
+		return e
+	}
+	if strings.Contains(name, "[") {
+		for _, pe := range prefixExternals {
+			if strings.HasPrefix(name, pe.prefix) && strings.HasSuffix(name, pe.suffix) {
+				return pe.fn
+			}
+		}
+	}
+	return nil
+}
+
+const vpkg = "github.com/vimeo/dials/zzverif."
+
+func argStr(v value) string {
+	if s, ok := v.(string); ok {
+		return s
+	}
+	return describeStr(v)
+}
+
 func init() {
-	// That little dot ۰ is an Arabic zero numeral (U+06F0), categories [Nd].
 	for k, v := range map[string]externalFn{
-		"(reflect.Value).Bool":            ext۰reflect۰Value۰Bool,
-		"(reflect.Value).CanAddr":         ext۰reflect۰Value۰CanAddr,
-		"(reflect.Value).CanInterface":    ext۰reflect۰Value۰CanInterface,
-		"(reflect.Value).Elem":            ext۰reflect۰Value۰Elem,
-		"(reflect.Value).Field":           ext۰reflect۰Value۰Field,
-		"(reflect.Value).Float":           ext۰reflect۰Value۰Float,
-		"(reflect.Value).Index":           ext۰reflect۰Value۰Index,
-		"(reflect.Value).Int":             ext۰reflect۰Value۰Int,
-		"(reflect.Value).Interface":       ext۰reflect۰Value۰Interface,
-		"(reflect.Value).IsNil":           ext۰reflect۰Value۰IsNil,
-		"(reflect.Value).IsValid":         ext۰reflect۰Value۰IsValid,
-		"(reflect.Value).Kind":            ext۰reflect۰Value۰Kind,
-		"(reflect.Value).Len":             ext۰reflect۰Value۰Len,
-		"(reflect.Value).MapIndex":        ext۰reflect۰Value۰MapIndex,
-		"(reflect.Value).MapKeys":         ext۰reflect۰Value۰MapKeys,
-		"(reflect.Value).NumField":        ext۰reflect۰Value۰NumField,
-		"(reflect.Value).NumMethod":       ext۰reflect۰Value۰NumMethod,
-		"(reflect.Value).Pointer":         ext۰reflect۰Value۰Pointer,
-		"(reflect.Value).Set":             ext۰reflect۰Value۰Set,
-		"(reflect.Value).String":          ext۰reflect۰Value۰String,
-		"(reflect.Value).Type":            ext۰reflect۰Value۰Type,
-		"(reflect.Value).Uint":            ext۰reflect۰Value۰Uint,
-		"(reflect.error).Error":           ext۰reflect۰error۰Error,
-		"(reflect.rtype).Bits":            ext۰reflect۰rtype۰Bits,
-		"(reflect.rtype).Elem":            ext۰reflect۰rtype۰Elem,
-		"(reflect.rtype).Field":           ext۰reflect۰rtype۰Field,
-		"(reflect.rtype).In":              ext۰reflect۰rtype۰In,
-		"(reflect.rtype).Kind":            ext۰reflect۰rtype۰Kind,
-		"(reflect.rtype).NumField":        ext۰reflect۰rtype۰NumField,
-		"(reflect.rtype).NumIn":           ext۰reflect۰rtype۰NumIn,
-		"(reflect.rtype).NumMethod":       ext۰reflect۰rtype۰NumMethod,
-		"(reflect.rtype).NumOut":          ext۰reflect۰rtype۰NumOut,
-		"(reflect.rtype).Out":             ext۰reflect۰rtype۰Out,
-		"(reflect.rtype).Size":            ext۰reflect۰rtype۰Size,
-		"(reflect.rtype).String":          ext۰reflect۰rtype۰String,
-		"bytes.Equal":                     ext۰bytes۰Equal,
-		"bytes.IndexByte":                 ext۰bytes۰IndexByte,
-		"fmt.Sprint":                      ext۰fmt۰Sprint,
-		"math.Abs":                        ext۰math۰Abs,
-		"math.Copysign":                   ext۰math۰Copysign,
-		"math.Exp":                        ext۰math۰Exp,
-		"math.Float32bits":                ext۰math۰Float32bits,
-		"math.Float32frombits":            ext۰math۰Float32frombits,
-		"math.Float64bits":                ext۰math۰Float64bits,
-		"math.Float64frombits":            ext۰math۰Float64frombits,
-		"math.Inf":                        ext۰math۰Inf,
-		"math.IsNaN":                      ext۰math۰IsNaN,
-		"math.Ldexp":                      ext۰math۰Ldexp,
-		"math.Log":                        ext۰math۰Log,
-		"math.Min":                        ext۰math۰Min,
-		"math.NaN":                        ext۰math۰NaN,
-		"math.Sqrt":                       ext۰math۰Sqrt,
-		"os.Exit":                         ext۰os۰Exit,
-		"os.Getenv":                       ext۰os۰Getenv,
-		"reflect.New":                     ext۰reflect۰New,
-		"reflect.SliceOf":                 ext۰reflect۰SliceOf,
-		"reflect.TypeOf":                  ext۰reflect۰TypeOf,
-		"reflect.ValueOf":                 ext۰reflect۰ValueOf,
-		"reflect.Zero":                    ext۰reflect۰Zero,
-		"runtime.Breakpoint":              ext۰runtime۰Breakpoint,
-		"runtime.GC":                      ext۰runtime۰GC,
-		"runtime.GOMAXPROCS":              ext۰runtime۰GOMAXPROCS,
-		"runtime.GOROOT":                  ext۰runtime۰GOROOT,
-		"runtime.Goexit":                  ext۰runtime۰Goexit,
-		"runtime.Gosched":                 ext۰runtime۰Gosched,
-		"runtime.NumCPU":                  ext۰runtime۰NumCPU,
-		"sort.Float64s":                   ext۰sort۰Float64s,
-		"sort.Ints":                       ext۰sort۰Ints,
-		"sort.Strings":                    ext۰sort۰Strings,
-		"strconv.Atoi":                    ext۰strconv۰Atoi,
-		"strconv.Itoa":                    ext۰strconv۰Itoa,
-		"strconv.FormatFloat":             ext۰strconv۰FormatFloat,
-		"strings.Count":                   ext۰strings۰Count,
-		"strings.EqualFold":               ext۰strings۰EqualFold,
-		"strings.Index":                   ext۰strings۰Index,
-		"strings.IndexByte":               ext۰strings۰IndexByte,
-		"strings.Replace":                 ext۰strings۰Replace,
-		"strings.ToLower":                 ext۰strings۰ToLower,
-		"time.Sleep":                      ext۰time۰Sleep,
-		"unicode/utf8.DecodeRuneInString": ext۰unicode۰utf8۰DecodeRuneInString,
+		vpkg + "Symbolic": func(fr *frame, args []value) value { return true },
+		vpkg + "Int64":    func(fr *frame, args []value) value { return newScalarInput(argStr(args[0]), types.Int64) },
+		vpkg + "Uint64":   func(fr *frame, args []value) value { return newScalarInput(argStr(args[0]), types.Uint64) },
+		vpkg + "Int":      func(fr *frame, args []value) value { return newScalarInput(argStr(args[0]), types.Int) },
+		vpkg + "Int32":    func(fr *frame, args []value) value { return newScalarInput(argStr(args[0]), types.Int32) },
+		vpkg + "Uint32":   func(fr *frame, args []value) value { return newScalarInput(argStr(args[0]), types.Uint32) },
+		vpkg + "Int16":    func(fr *frame, args []value) value { return newScalarInput(argStr(args[0]), types.Int16) },
+		vpkg + "Uint16":   func(fr *frame, args []value) value { return newScalarInput(argStr(args[0]), types.Uint16) },
+		vpkg + "Int8":     func(fr *frame, args []value) value { return newScalarInput(argStr(args[0]), types.Int8) },
+		vpkg + "Byte":     func(fr *frame, args []value) value { return newScalarInput(argStr(args[0]), types.Uint8) },
+		vpkg + "Bool":     func(fr *frame, args []value) value { return newScalarInput(argStr(args[0]), types.Bool) },
+		vpkg + "Choose": func(fr *frame, args []value) value {
+			n := int(asInt64(args[1]))
+			in := cur.newInput(argStr(args[0]), "choose")
+			c := cur.choose(n, "c")
+			in.Conc = []uint64{uint64(c)}
+			return c
+		},
+		vpkg + "Bytes": func(fr *frame, args []value) value {
+			n := int(asInt64(args[1]))
+			in := cur.newInput(argStr(args[0]), "bytes")
+			b := make([]value, n)
+			for i := 0; i < n; i++ {
+				e := smt.Var(fmt.Sprintf("in_%s_%d_b%d", sanitize(in.Name), len(cur.inputs), i), 8)
+				in.E = append(in.E, e)
+				b[i] = sym{e, types.Uint8}
+			}
+			if n == 0 {
+				in.Conc = []uint64{}
+			}
+			return normStr(b)
+		},
+		vpkg + "And":     func(fr *frame, args []value) value { return vand(args[0], args[1]) },
+		vpkg + "Or":      func(fr *frame, args []value) value { return vnot(vand(vnot(args[0]), vnot(args[1]))) },
+		vpkg + "Not":     func(fr *frame, args []value) value { return vnot(args[0]) },
+		vpkg + "Implies": func(fr *frame, args []value) value { return vnot(vand(args[0], vnot(args[1]))) },
+		vpkg + "InRange": func(fr *frame, args []value) value {
+			return vand(binop(token.LEQ, types.Typ[types.Uint8], args[1], args[0]), binop(token.LEQ, types.Typ[types.Uint8], args[0], args[2]))
+		},
+		vpkg + "StrEq": func(fr *frame, args []value) value { return strEq(args[0], args[1]) },
+		vpkg + "Assume": func(fr *frame, args []value) value { cur.assume(args[0]); return nil },
+		vpkg + "Assert": func(fr *frame, args []value) value {
+			cur.assertCond(args[0], argStr(args[1]), "", nil)
+			return nil
+		},
+		vpkg + "AssertUnlessKnown": func(fr *frame, args []value) value {
+			cur.assertCond(args[0], argStr(args[1]), argStr(args[2]), args[3])
+			return nil
+		},
+		vpkg + "Fail": func(fr *frame, args []value) value {
+			cur.assertCond(false, argStr(args[0]), "", nil)
+			return nil
+		},
+		vpkg + "Reached": func(fr *frame, args []value) value { cur.reached[argStr(args[0])] = true; return nil },
+		vpkg + "Observe": func(fr *frame, args []value) value {
+			cur.observed[argStr(args[0])] = toString(args[1])
+			return nil
+		},
+		vpkg + "Event": func(fr *frame, args []value) value {
+			if cur.sched != nil && cur.sched.running != nil {
+				cur.sched.syncPoint(&pendingOp{kind: opEvent, obj: ghostObj(), eventTag: argStr(args[0]), site: argStr(args[0])})
+			}
+			return nil
+		},
+		vpkg + "Yield": func(fr *frame, args []value) value {
+			if cur.sched != nil && cur.sched.running != nil {
+				cur.sched.syncPoint(&pendingOp{kind: opEvent, obj: ghostObj(), eventTag: "yield", site: argStr(args[0])})
+			}
+			return nil
+		},
+		vpkg + "Daemon": func(fr *frame, args []value) value {
+			if cur.sched != nil && cur.sched.running != nil {
+				cur.sched.running.daemon = true
+			}
+			return nil
+		},
+		vpkg + "Quiesce": func(fr *frame, args []value) value {
+			// wait until no other goroutine can make progress
+			if cur.sched != nil && cur.sched.running != nil {
+				cur.sched.syncPoint(&pendingOp{kind: opQuiesce, obj: ghostObj(), site: "quiesce"})
+			}
+			return nil
+		},
+		vpkg + "NumParked": func(fr *frame, args []value) value {
+			n := 0
+			if cur.sched != nil {
+				for _, g := range cur.sched.gs {
+					if !g.done && g != cur.sched.running && !g.daemon {
+						n++
+					}
+				}
+			}
+			return n
+		},
+		vpkg + "ParkedDesc": func(fr *frame, args []value) value {
+			if cur.sched == nil {
+				return ""
+			}
+			return cur.sched.describeParked()
+		},
+
+		// ---- runtime / misc
+		"runtime.Gosched":     func(fr *frame, args []value) value { return nil },
+		"runtime.GC":          func(fr *frame, args []value) value { return nil },
+		"runtime.KeepAlive":   func(fr *frame, args []value) value { return nil },
+		"runtime.SetFinalizer": func(fr *frame, args []value) value { return nil },
+		"runtime.GOMAXPROCS":  func(fr *frame, args []value) value { return 1 },
+		"runtime.NumCPU":      func(fr *frame, args []value) value { return 1 },
+		"internal/abi.NoEscape": func(fr *frame, args []value) value { return args[0] },
+		"internal/abi.Escape":   func(fr *frame, args []value) value { return args[0] },
+		"internal/race.Enabled": func(fr *frame, args []value) value { return false },
+		"internal/bytealg.MakeNoZero": func(fr *frame, args []value) value {
+			n := asInt64(args[0])
+			s := make([]value, n)
+			for i := range s {
+				s[i] = uint8(0)
+			}
+			return s
+		},
+		"internal/bytealg.IndexByteString": extIndexByteString,
+		"internal/bytealg.IndexByte": func(fr *frame, args []value) value {
+			return extIndexByteString(fr, []value{normStr(args[0].([]value)), args[1]})
+		},
+		"internal/bytealg.CountString": func(fr *frame, args []value) value {
+			b := strBytes(args[0])
+			n := 0
+			for _, c := range b {
+				if truth(equalsV(nil, c, args[1])) {
+					n++
+				}
+			}
+			return n
+		},
+		"internal/bytealg.IndexString": func(fr *frame, args []value) value {
+			a, bok := args[0].(string)
+			b, ok2 := args[1].(string)
+			if bok && ok2 {
+				return strings.Index(a, b)
+			}
+			ab, bb := strBytes(args[0]), strBytes(args[1])
+			for i := 0; i+len(bb) <= len(ab); i++ {
+				if truth(strEq(normStr(ab[i:i+len(bb)]), args[1])) {
+					return i
+				}
+			}
+			return -1
+		},
+		"internal/bytealg.Equal": func(fr *frame, args []value) value {
+			return strEq(normStr(args[0].([]value)), normStr(args[1].([]value)))
+		},
+		"internal/stringslite.Index": func(fr *frame, args []value) value {
+			return externals["internal/bytealg.IndexString"](fr, args)
+		},
+		"internal/stringslite.IndexByte": extIndexByteString,
+		"internal/stringslite.HasPrefix": func(fr *frame, args []value) value {
+			ab, bb := strBytes(args[0]), strBytes(args[1])
+			if len(ab) < len(bb) {
+				return false
+			}
+			return strEq(normStr(ab[:len(bb):len(bb)]), args[1])
+		},
+		"internal/stringslite.HasSuffix": func(fr *frame, args []value) value {
+			ab, bb := strBytes(args[0]), strBytes(args[1])
+			if len(ab) < len(bb) {
+				return false
+			}
+			return strEq(normStr(ab[len(ab)-len(bb):]), args[1])
+		},
+		"unsafe.String": func(fr *frame, args []value) value {
+			return externals["unsafe.String"](fr, args)
+		},
+		"math.Float64bits":     func(fr *frame, args []value) value { return math.Float64bits(args[0].(float64)) },
+		"math.Float64frombits": func(fr *frame, args []value) value { return math.Float64frombits(args[0].(uint64)) },
+		"math.Float32bits":     func(fr *frame, args []value) value { return math.Float32bits(args[0].(float32)) },
+		"math.Float32frombits": func(fr *frame, args []value) value { return math.Float32frombits(args[0].(uint32)) },
+		"math.IsNaN":           func(fr *frame, args []value) value { return math.IsNaN(args[0].(float64)) },
+		"math.IsInf":           func(fr *frame, args []value) value { return math.IsInf(args[0].(float64), int(asInt64(args[1]))) },
+		"math.Inf":             func(fr *frame, args []value) value { return math.Inf(int(asInt64(args[0]))) },
+		"math.NaN":             func(fr *frame, args []value) value { return math.NaN() },
+		"math.Abs":             func(fr *frame, args []value) value { return math.Abs(args[0].(float64)) },
+
+		// ---- strings.Builder (uses unsafe)
+		"(*strings.Builder).WriteString": func(fr *frame, args []value) value {
+			sbAppend(args[0], strBytes(args[1]))
+			return tuple{strLen(args[1]), iface{}}
+		},
+		"(*strings.Builder).WriteByte": func(fr *frame, args []value) value {
+			sbAppend(args[0], []value{args[1]})
+			return iface{}
+		},
+		"(*strings.Builder).WriteRune": func(fr *frame, args []value) value {
+			r := args[1]
+			if sr, ok := r.(sym); ok {
+				// ASCII fast path symbolic, else concretise
+				if truth(mkSym(smt.Cmp("bvult", sr.e, smt.Const(32, 0x80)), types.Bool)) {
+					sbAppend(args[0], []value{mkSym(smt.Extract(7, 0, sr.e), types.Uint8)})
+					return tuple{1, iface{}}
+				}
+				r = int32(cur.concretize(sr.e))
+			}
+			var buf [4]byte
+			n := utf8.EncodeRune(buf[:], r.(int32))
+			sbAppend(args[0], strBytes(string(buf[:n])))
+			return tuple{n, iface{}}
+		},
+		"(*strings.Builder).Write": func(fr *frame, args []value) value {
+			sbAppend(args[0], args[1].([]value))
+			return tuple{len(args[1].([]value)), iface{}}
+		},
+		"(*strings.Builder).String": func(fr *frame, args []value) value { return normStr(append([]value(nil), sbGet(args[0])...)) },
+		"(*strings.Builder).Len":    func(fr *frame, args []value) value { return len(sbGet(args[0])) },
+		"(*strings.Builder).Cap":    func(fr *frame, args []value) value { return cap(sbGet(args[0])) },
+		"(*strings.Builder).Grow":   func(fr *frame, args []value) value { return nil },
+		"(*strings.Builder).Reset": func(fr *frame, args []value) value {
+			sbSet(args[0], nil)
+			return nil
+		},
+
+		// ---- unicode predicates: native for concrete runes; Latin-1 table + uninterpreted above
+		"unicode.IsUpper":  unicodePred("IsUpper", unicode.IsUpper),
+		"unicode.IsLower":  unicodePred("IsLower", unicode.IsLower),
+		"unicode.IsLetter": unicodePred("IsLetter", unicode.IsLetter),
+		"unicode.IsDigit":  unicodePred("IsDigit", unicode.IsDigit),
+		"unicode.IsNumber": unicodePred("IsNumber", unicode.IsNumber),
+		"unicode.IsPrint":  unicodePred("IsPrint", unicode.IsPrint),
+		"unicode.IsSpace":  unicodePred("IsSpace", unicode.IsSpace),
+		"unicode.IsPunct":  unicodePred("IsPunct", unicode.IsPunct),
+		"unicode.IsGraphic": unicodePred("IsGraphic", unicode.IsGraphic),
+		"unicode.IsControl": unicodePred("IsControl", unicode.IsControl),
+		"unicode.IsTitle":  unicodePred("IsTitle", unicode.IsTitle),
+		"unicode.ToUpper":  unicodeMap("ToUpper", unicode.ToUpper),
+		"unicode.ToLower":  unicodeMap("ToLower", unicode.ToLower),
+		"unicode.ToTitle":  unicodeMap("ToTitle", unicode.ToTitle),
+		"unicode.SimpleFold": unicodeMap("SimpleFold", unicode.SimpleFold),
+
+		// ---- strconv: native on concrete strings, contract stubs on symbolic ones
+		"strconv.Itoa":        func(fr *frame, args []value) value { return strconv.Itoa(int(concInt(args[0]))) },
+		"strconv.FormatInt":   func(fr *frame, args []value) value { return strconv.FormatInt(concInt(args[0]), int(asInt64(args[1]))) },
+		"strconv.FormatUint":  func(fr *frame, args []value) value { return strconv.FormatUint(asUint64(args[0]), int(asInt64(args[1]))) },
+		"strconv.FormatBool":  func(fr *frame, args []value) value { return strconv.FormatBool(truth(args[0])) },
+		"strconv.FormatFloat": func(fr *frame, args []value) value {
+			return strconv.FormatFloat(args[0].(float64), args[1].(byte), int(asInt64(args[2])), int(asInt64(args[3])))
+		},
+		"strconv.Quote": func(fr *frame, args []value) value {
+			if s, ok := args[0].(string); ok {
+				return strconv.Quote(s)
+			}
+			return nil
+		},
 	} {
 		externals[k] = v
 	}
+	delete(externals, "unsafe.String")
+	delete(externals, "strconv.Quote") // interpreted from source (handles symbolic bytes)
 }
 
-func ext۰bytes۰Equal(fr *frame, args []value) value {
-	// func Equal(a, b []byte) bool
-	a := args[0].([]value)
-	b := args[1].([]value)
-	if len(a) != len(b) {
-		return false
-	}
-	for i := range a {
-		if a[i] != b[i] {
-			return false
-		}
-	}
-	return true
+func newScalarInput(name string, k types.BasicKind) value {
+	in := cur.newInput(name, strings.ToLower(types.Typ[k].Name()))
+	e := smt.Var(fmt.Sprintf("in_%s_%d", sanitize(name), len(cur.inputs)), kindWidth(k))
+	in.E = []*smt.Expr{e}
+	return sym{e, k}
 }
 
-func ext۰bytes۰IndexByte(fr *frame, args []value) value {
-	// func IndexByte(s []byte, c byte) int
-	s := args[0].([]value)
-	c := args[1].(byte)
-	for i, b := range s {
-		if b.(byte) == c {
+var theGhost *syncObj
+
+func ghostObj() *syncObj {
+	if theGhost == nil {
+		theGhost = &syncObj{id: 0}
+	}
+	return theGhost
+}
+
+func extIndexByteString(fr *frame, args []value) value {
+	b := strBytes(args[0])
+	for i, c := range b {
+		if truth(equalsV(nil, c, args[1])) {
 			return i
 		}
 	}
 	return -1
 }
 
-func ext۰math۰Float64frombits(fr *frame, args []value) value {
-	return math.Float64frombits(args[0].(uint64))
+// strings.Builder is struct{addr *Builder; buf []byte}; we keep the bytes in field 1.
+func sbGet(recv value) []value {
+	st := (*recv.(*value)).(structure)
+	b, _ := st[1].([]value)
+	return b
 }
 
-func ext۰math۰Float64bits(fr *frame, args []value) value {
-	return math.Float64bits(args[0].(float64))
+func sbSet(recv value, b []value) {
+	st := (*recv.(*value)).(structure)
+	theInterp.logStore(&st[1])
+	st[1] = b
 }
 
-func ext۰math۰Float32frombits(fr *frame, args []value) value {
-	return math.Float32frombits(args[0].(uint32))
+func sbAppend(recv value, bs []value) {
+	cur0 := sbGet(recv)
+	nb := make([]value, 0, len(cur0)+len(bs))
+	nb = append(nb, cur0...)
+	nb = append(nb, bs...)
+	sbSet(recv, nb)
 }
 
-func ext۰math۰Abs(fr *frame, args []value) value {
-	return math.Abs(args[0].(float64))
-}
+var latin1Tables = map[string][]uint64{}
 
-func ext۰math۰Copysign(fr *frame, args []value) value {
-	return math.Copysign(args[0].(float64), args[1].(float64))
-}
-
-func ext۰math۰Exp(fr *frame, args []value) value {
-	return math.Exp(args[0].(float64))
-}
-
-func ext۰math۰Float32bits(fr *frame, args []value) value {
-	return math.Float32bits(args[0].(float32))
-}
-
-func ext۰math۰Min(fr *frame, args []value) value {
-	return math.Min(args[0].(float64), args[1].(float64))
-}
-
-func ext۰math۰NaN(fr *frame, args []value) value {
-	return math.NaN()
-}
-
-func ext۰math۰IsNaN(fr *frame, args []value) value {
-	return math.IsNaN(args[0].(float64))
-}
-
-func ext۰math۰Inf(fr *frame, args []value) value {
-	return math.Inf(args[0].(int))
-}
-
-func ext۰math۰Ldexp(fr *frame, args []value) value {
-	return math.Ldexp(args[0].(float64), args[1].(int))
-}
-
-func ext۰math۰Log(fr *frame, args []value) value {
-	return math.Log(args[0].(float64))
-}
-
-func ext۰math۰Sqrt(fr *frame, args []value) value {
-	return math.Sqrt(args[0].(float64))
-}
-
-func ext۰runtime۰Breakpoint(fr *frame, args []value) value {
-	runtime.Breakpoint()
-	return nil
-}
-
-func ext۰sort۰Ints(fr *frame, args []value) value {
-	x := args[0].([]value)
-	sort.Slice(x, func(i, j int) bool {
-		return x[i].(int) < x[j].(int)
-	})
-	return nil
-}
-func ext۰sort۰Strings(fr *frame, args []value) value {
-	x := args[0].([]value)
-	sort.Slice(x, func(i, j int) bool {
-		return x[i].(string) < x[j].(string)
-	})
-	return nil
-}
-func ext۰sort۰Float64s(fr *frame, args []value) value {
-	x := args[0].([]value)
-	sort.Slice(x, func(i, j int) bool {
-		return x[i].(float64) < x[j].(float64)
-	})
-	return nil
-}
-
-func ext۰strconv۰Atoi(fr *frame, args []value) value {
-	i, e := strconv.Atoi(args[0].(string))
-	if e != nil {
-		return tuple{i, iface{fr.i.runtimeErrorString, e.Error()}}
-	}
-	return tuple{i, iface{}}
-}
-func ext۰strconv۰Itoa(fr *frame, args []value) value {
-	return strconv.Itoa(args[0].(int))
-}
-func ext۰strconv۰FormatFloat(fr *frame, args []value) value {
-	return strconv.FormatFloat(args[0].(float64), args[1].(byte), args[2].(int), args[3].(int))
-}
-
-func ext۰strings۰Count(fr *frame, args []value) value {
-	return strings.Count(args[0].(string), args[1].(string))
-}
-
-func ext۰strings۰EqualFold(fr *frame, args []value) value {
-	return strings.EqualFold(args[0].(string), args[1].(string))
-}
-func ext۰strings۰IndexByte(fr *frame, args []value) value {
-	return strings.IndexByte(args[0].(string), args[1].(byte))
-}
-
-func ext۰strings۰Index(fr *frame, args []value) value {
-	return strings.Index(args[0].(string), args[1].(string))
-}
-
-func ext۰strings۰Replace(fr *frame, args []value) value {
-	// func Replace(s, old, new string, n int) string
-	s := args[0].(string)
-	new := args[1].(string)
-	old := args[2].(string)
-	n := args[3].(int)
-	return strings.Replace(s, old, new, n)
-}
-
-func ext۰strings۰ToLower(fr *frame, args []value) value {
-	return strings.ToLower(args[0].(string))
-}
-
-func ext۰runtime۰GOMAXPROCS(fr *frame, args []value) value {
-	// Ignore args[0]; don't let the interpreted program
-	// set the interpreter's GOMAXPROCS!
-	return runtime.GOMAXPROCS(0)
-}
-
-func ext۰runtime۰Goexit(fr *frame, args []value) value {
-	// TODO(adonovan): don't kill the interpreter's main goroutine.
-	runtime.Goexit()
-	return nil
-}
-
-func ext۰runtime۰GOROOT(fr *frame, args []value) value {
-	return runtime.GOROOT()
-}
-
-func ext۰runtime۰GC(fr *frame, args []value) value {
-	runtime.GC()
-	return nil
-}
-
-func ext۰runtime۰Gosched(fr *frame, args []value) value {
-	runtime.Gosched()
-	return nil
-}
-
-func ext۰runtime۰NumCPU(fr *frame, args []value) value {
-	return runtime.NumCPU()
-}
-
-func ext۰time۰Sleep(fr *frame, args []value) value {
-	time.Sleep(time.Duration(args[0].(int64)))
-	return nil
-}
-
-func ext۰os۰Getenv(fr *frame, args []value) value {
-	name := args[0].(string)
-	switch name {
-	case "GOSSAINTERP":
-		return "1"
-	}
-	return os.Getenv(name)
-}
-
-func ext۰os۰Exit(fr *frame, args []value) value {
-	panic(exitPanic(args[0].(int)))
-}
-
-func ext۰unicode۰utf8۰DecodeRuneInString(fr *frame, args []value) value {
-	r, n := utf8.DecodeRuneInString(args[0].(string))
-	return tuple{r, n}
-}
-
-// A fake function for turning an arbitrary value into a string.
-// Handles only the cases needed by the tests.
-// Uses same logic as 'print' built-in.
-func ext۰fmt۰Sprint(fr *frame, args []value) value {
-	buf := new(bytes.Buffer)
-	wasStr := false
-	for i, arg := range args[0].([]value) {
-		x := arg.(iface).v
-		_, isStr := x.(string)
-		if i > 0 && !wasStr && !isStr {
-			buf.WriteByte(' ')
+func unicodePred(name string, f func(rune) bool) externalFn {
+	return func(fr *frame, args []value) value {
+		switch r := args[0].(type) {
+		case int32:
+			return f(r)
+		case sym:
+			tbl := latin1Tables[name]
+			if tbl == nil {
+				tbl = make([]uint64, 256)
+				for i := range tbl {
+					if f(rune(i)) {
+						tbl[i] = 1
+					}
+				}
+				latin1Tables[name] = tbl
+			}
+			lo := smt.Eq(smt.TableLookup("uni_"+name, 1, tbl, smt.Extract(7, 0, r.e)), smt.Const(1, 1))
+			hi := smt.Eq(smt.App("uf_"+name, 1, r.e), smt.Const(1, 1))
+			isLatin := smt.Cmp("bvult", r.e, smt.Const(32, 256))
+			return mkSym(smt.Ite(isLatin, lo, hi), types.Bool)
 		}
-		wasStr = isStr
-		buf.WriteString(toString(x))
+		panic(fmt.Sprintf("unicode.%s on %T", name, args[0]))
 	}
-	return buf.String()
+}
+
+func unicodeMap(name string, f func(rune) rune) externalFn {
+	return func(fr *frame, args []value) value {
+		switch r := args[0].(type) {
+		case int32:
+			return f(r)
+		case sym:
+			tbl := latin1Tables[name]
+			if tbl == nil {
+				tbl = make([]uint64, 256)
+				for i := range tbl {
+					tbl[i] = uint64(uint32(f(rune(i))))
+				}
+				latin1Tables[name] = tbl
+			}
+			lo := smt.TableLookup("uni_"+name, 32, tbl, smt.Extract(7, 0, r.e))
+			hi := smt.App("uf_"+name, 32, r.e)
+			isLatin := smt.Cmp("bvult", r.e, smt.Const(32, 256))
+			return mkSym(smt.Ite(isLatin, lo, hi), types.Int32)
+		}
+		panic(fmt.Sprintf("unicode.%s on %T", name, args[0]))
+	}
+}
+
+// decodeRuneSym decodes the first rune of s (string or symstr) by calling the interpreted
+// utf8.DecodeRuneInString; returns the rune value (int32 or sym) and its concrete size.
+func decodeRuneSym(s value) (value, int) {
+	if cs, ok := s.(string); ok {
+		r, n := utf8.DecodeRuneInString(cs)
+		return r, n
+	}
+	b := strBytes(s)
+	// ASCII fast path
+	if sb, ok := b[0].(sym); ok {
+		if truth(mkSym(smt.Cmp("bvult", sb.e, smt.Const(8, 0x80)), types.Bool)) {
+			return mkSym(smt.ZeroExt(24, sb.e), types.Int32), 1
+		}
+	} else if b[0].(uint8) < 0x80 {
+		return int32(b[0].(uint8)), 1
+	}
+	pkg := theInterp.prog.ImportedPackage("unicode/utf8")
+	if pkg == nil || pkg.Func("DecodeRuneInString") == nil || pkg.Func("DecodeRuneInString").Blocks == nil {
+		unsupported("range over symbolic non-ASCII string needs unicode/utf8 loaded from source")
+	}
+	res := callSSA(theInterp, nil, 0, pkg.Func("DecodeRuneInString"), []value{s}, nil).(tuple)
+	return res[0], int(asInt64(res[1]))
 }
